@@ -26,14 +26,14 @@ def run(chk):
         'order, route, truth table) + distinct table-changing history steps')
     sh = []
     sh += common.stage_graph(chk, 'MC_Core3', 'MC_Core3.cfg' if q else 'MC_Core3_deep.cfg',
-                             ['a', 'b', 'c'], 3, limit=1000 if q else 60000,
+                             ['a', 'b', 'c'], 3, limit=chk.th(1000, 60000),
                              need_actions=CORE)
     sh += common.stage_graph(chk, 'MC_VarDecl', 'MC_VarDecl.cfg' if q else 'MC_VarDecl_deep.cfg',
-                             ['a', 'b', 'c'], 1, limit=1000 if q else 40000,
+                             ['a', 'b', 'c'], 1, limit=chk.th(1000, 40000),
                              need_actions=['add_var', 'undeclare', 'swap', 'gc'],
                              tag='vd')
-    hs = common.stage_histories(chk, ntraces=64 if q else 4000,
-                                steps=120 if q else 300,
+    hs = common.stage_histories(chk, ntraces=chk.th(64, 4000),
+                                steps=chk.th(120, 300),
                                 nvars_choices=[2, 3, 4, 5])
     sh += hs
     tasks = []
@@ -65,7 +65,7 @@ def run(chk):
     chk.extra['route_results_judged'] = sum(r['events'] for r in res)
     sh += common.stage_wide(chk, 'decl')
     # two managers built from ONE levels dict: the recorded one must not notice its sibling
-    sh += common.stage_histories(chk, ntraces=16 if q else 400, steps=30 if q else 60,
+    sh += common.stage_histories(chk, ntraces=chk.th(16, 400), steps=chk.th(30, 60),
                                  nvars_choices=[3, 4], profile='sibling', tag='sib')
     chk.own_clauses = tuple(chk.own_clauses) + ('frame.held', 'decl.views', 'reorder.held_den')
     chk.validate('TraceBDD', 'TraceBDD.cfg', sh)
